@@ -19,6 +19,9 @@ EXPLANATION = (
     'then an error; require_route returns the first tag of the first routing item and raises when there is none; '
     'declared parameters receive the composite metadata exactly when named/annotated so, the payload otherwise. '
     'Not decided: nothing essential beyond what applications register.')
+EXPLANATION_ADDED = ('Parameter binding is decided per path of the collector: metadata parameters get the metadata, parameters annotated Payload or not annotated get the raw payload, any other annotation gets payload_deserializer(annotation, payload).')
+EXPLANATION = EXPLANATION.replace(' Not decided', ' ' + EXPLANATION_ADDED + ' Not decided', 1) \
+    if ' Not decided' in EXPLANATION else EXPLANATION + ' ' + EXPLANATION_ADDED
 ASSUMPTIONS = COMMON_ASSUMPTIONS
 
 ROWS = {
